@@ -40,6 +40,12 @@ class C17(Prop):
     def items(self, rng, tier):
         out = []
         src = texts(rng, tier, 500, 8000) + gens.g_text(rng, 200 if tier == 'quick' else 3000)
+        # legends whose entries are separated by empty lines (whatever the grammar makes of an empty line, blanks on it must not matter)
+        for _ in range(40 if tier == 'quick' else 600):
+            body = rng.choice(['+--+\n|{a}|\n+--+', '{b}', ' .-.\n( a )\n `-\'', 'a--b'])
+            ents = [rng.choice(['a', 'b', 'big_1', 'w']) + rng.choice([' = ', '=', ' =', '  =  ']) + '{' + rng.choice(['fill:red;', 'stroke: blue', 'fill:red;\n stroke:blue;']) + '}' for _ in range(rng.randint(2, 4))]
+            sep = ['\n' * rng.randint(1, 3) for _ in ents]
+            src.append(('legend-gaps', body + '\n# Legend:\n' + ''.join(e + s for e, s in zip(ents, sep))))
         for g, t in src:
             t = t.replace('\r', '')
             if '\x0b' in t or '\x0c' in t or '\x85' in t or ' ' in t or ' ' in t: pass
